@@ -177,7 +177,12 @@ def hyp_files(ctx, n):
 
     def body(v):
         codec, msgs, blocked = v
-        data = write_file(msgs, codec, blocked)
+        ctx.labels['generated'] += 1
+        try:
+            data = write_file(msgs, codec, blocked)
+        except Exception:  # noqa - the statement is about files the writer produced; a writer that refuses is C01/C06's business
+            ctx.labels['writer-raised'] += 1
+            return
         ctx.case(key=harness.digest((codec, data, blocked)), nontrivial=blocked and len(data) >= 3 * 1014,
                  labels=['hyp', 'family:' + codecs_.family(codec), (f'blocks>=3' if len(data) >= 3042 else 'blocks<3') if blocked else 'unblocked'])
         if len(ctx.samples) < 4:
@@ -186,6 +191,7 @@ def hyp_files(ctx, n):
         if res:
             ctx.fail(res[0], {'kind': 'msgs', 'codec': codec, 'msgs': msgs, 'blocked': blocked}, res[1])
     harness.drive(ctx, cases(), body, n, salt='files')
+    ctx.floor('hyp', 0.5, 'generated')
 
 
 def check_invalid(data, desc):
